@@ -2,6 +2,7 @@
  * Contract on the real Avoid::bends (cola/libavoid/makepath.cpp), verified with
  * orthogonalDirection/dirLeft/dirRight/dirReverse inlined (they are mechanism, DESIGN 1.1).
  * MINB is generated on every run by tools/minb.py (independent search, not from the code). */
+#define PACKED __attribute__((packed))
 struct __attribute__((packed)) Point { double x; double y; unsigned int id; unsigned short vn; };   /* packed: CBMC's C++ layout */
 
 @MINB@
@@ -85,4 +86,32 @@ __CPROVER_ensures((last != (void *)0 && (dist == 0.0 || SEGDIR(last, curr) == 0u
 __CPROVER_assigns()
 ;
 void h_bendcount(void) { void *last, *curr, *tar; double dist; unsigned int dirs; w_bendcount(last, curr, tar, dist, dirs); VERIF_CANARY; }
+#endif
+
+/* ------------------------------------------------------------------------------------------------
+ * Polygon::simplify (which produces every connector's display route from the search's raw route): the decision to
+ * drop a route point.  A bend of an orthogonal route must survive: a point is dropped iff it is EXACTLY collinear with
+ * its neighbours -- so the orientation test must be called at tolerance 0 (call-site precondition) and the point is
+ * dropped iff that orientation is 0.  (With any tolerance, a right-angle bend whose legs are short enough is "collinear"
+ * and the display route gets a slanted segment: C05 "every segment is exactly horizontal or vertical".) */
+#if defined(JOB_simplify_cond)
+struct PACKED vec5 { void *d; size_t n; size_t cap; };
+struct PACKED Polygon5 { void *vptr; int _id; struct vec5 ps; struct vec5 ts; struct vec5 checkpointsOnRoute; };
+int __CPROVER_uninterpreted_ori3(double, double, double, double, double, double);
+#define PT5(poly, k) (&((struct Point *)((struct Polygon5 *)(poly))->ps.d)[k])
+#define ORI3(a, b, c) __CPROVER_uninterpreted_ori3(PX(a), PY(a), PX(b), PY(b), PX(c), PY(c))
+int w_vecDir(void *a, void *b, void *c, double maybeZero)
+__CPROVER_requires(maybeZero == 0.0)                       /* exact test: no tolerance at this call site */
+__CPROVER_ensures(__CPROVER_return_value == ORI3(a, b, c))
+__CPROVER_ensures(__CPROVER_return_value >= -1 && __CPROVER_return_value <= 1)
+__CPROVER_assigns()
+;
+_Bool w_simplify_drops(void *poly, size_t j)
+__CPROVER_requires(__CPROVER_is_fresh(poly, sizeof(struct Polygon5)))
+__CPROVER_requires(((struct Polygon5 *)poly)->ps.n >= 3 && ((struct Polygon5 *)poly)->ps.n <= 1000000 && j >= 2 && j < ((struct Polygon5 *)poly)->ps.n)
+__CPROVER_requires(__CPROVER_is_fresh(((struct Polygon5 *)poly)->ps.d, ((struct Polygon5 *)poly)->ps.n * sizeof(struct Point)))
+__CPROVER_ensures(__CPROVER_return_value == (ORI3(PT5(poly, j - 2), PT5(poly, j - 1), PT5(poly, j)) == 0))
+__CPROVER_assigns()
+;
+void h_simplify_cond(void) { void *poly; size_t j; w_simplify_drops(poly, j); VERIF_CANARY; }
 #endif
